@@ -119,7 +119,14 @@ def build(ctx, tier="quick", constraints=True, set_null=True, normalize_names=Fa
         "opt:DEF_CALL": [("KW", "DEFAULT"), (word, "value"), P["("], P[")"]],
         "opt:PK": [("KW", "PRIMARY"), ("KW", "KEY")],
         "opt:UNIQUE": [("KW", "UNIQUE")],
+        # a parenthesised default
+        "opt:DEF_PNULL": [("KW", "DEFAULT"), P["("], ("KW", "NULL"), P[")"]],
+        "opt:DEF_PNUM": [("KW", "DEFAULT"), P["("], (N["NUM"], "value"), P[")"]],
     }
+    if constraints:
+        # an inline constraint name: <col> type CONSTRAINT n UNIQUE | PRIMARY KEY | NOT NULL | REFERENCES ... - the name is an option of
+        # its own (the grammar folds it before the option it names), the option that follows is the ordinary one
+        opts["opt:CNAME"] = [("KW", "CONSTRAINT"), (cname, "cname")]
     for k, ws in opts.items():
         e = s.words(O, k, ws)
         s.eps(e, O)
@@ -231,11 +238,23 @@ def build(ctx, tier="quick", constraints=True, set_null=True, normalize_names=Fa
         s.edge(D, P[","], Tag("sep", True), sep)
         s.edge(D, P[")"], Tag("end", True), end)
     oracle = make_oracle(s, normalize_names)
-    if final and "keys" in final:
+    keep_names = bool(final and "keys" in final)
+    if keep_names:
         from .final import _name_relations
-        # keep, of the collapsed table accumulator, whether two of its columns differ only in quoting / letter case: the
-        # declarations that follow are then explored for such tables as well
-        s.acc_summary = lambda sym, v: bool(_name_relations(v)) if (sym == "expr" and isinstance(v, dict)) else None
+
+    def acc_summary(sym, v):
+        # what is kept of a collapsed accumulator (the rest of its value is not part of the configuration identity):
+        # - of the table: whether two of its columns differ only in quoting / letter case (the declarations that follow are then
+        #   explored for such tables as well);
+        # - of a column: whether it carries an inline constraint name / a reference (what the table-level fold does with such a
+        #   column - and with the ones after it - is then explored, too)
+        if sym == "expr" and isinstance(v, dict) and keep_names:
+            return bool(_name_relations(v))
+        if sym == "defcolumn" and isinstance(v, dict) and constraints:
+            return ("constraint" in v, v.get("references") is not None)
+        return None
+    if keep_names or constraints:
+        s.acc_summary = acc_summary
     if final:
         from .final import FinalJudge
         oracle = FinalJudge(ctx, oracle, rules=final, modes=final_modes, label=s.name, max_shapes=(1200 if tier == "thorough" else 400) if tuple(final) == ("keys",) else (160 if tier == "thorough" else 40))
@@ -439,6 +458,9 @@ def _make_oracle(s):
         "opt:DEF_CALL": default(lambda v: lift(lambda x: x + "()", v)),
         "opt:PK": upd(primary_key=True, nullable=False), "opt:UNIQUE": upd(unique=True),
         "opt:REF": inline_ref,
+        "opt:DEF_PNULL": lambda roles, old: {**old, "default": "NULL"},
+        "opt:DEF_PNUM": default(to_int),
+        "opt:CNAME": lambda roles, old: {**old, "constraint": {"name": roles["cname"]}},
         "decl:PK": pk, "decl:UQ": uq, "decl:CPK": cpk, "decl:CUQ": cuq, "decl:FK": fk, "decl:CFK": cfk,
         "decl:CHK": chk, "decl:CCHK": cchk, "decl:CHKF": chkf,
     }
